@@ -287,6 +287,12 @@ class Circuit:
 
         if len(new_indices) != len(self._qubit_indices):
             raise ValueError("The number of indices does not match the length of self._qubit_indices")
+        # The new indices must be valid, pairwise distinct qubit indices: otherwise the rewritten gates would be gates
+        # that the Gate constructor refuses (negative index, same qubit as target and control)
+        if any(not isinstance(i, (int, np.integer)) or isinstance(i, bool) or i < 0 for i in new_indices):
+            raise ValueError(f"New qubit indices must be non-negative integers, got {list(new_indices)}")
+        if len(set(new_indices)) != len(new_indices):
+            raise ValueError(f"New qubit indices must be pairwise distinct, got {list(new_indices)}")
 
         qubits_in_use = sorted(self._qubit_indices)
         mapping = {i: j for i, j in zip(qubits_in_use, new_indices)}
